@@ -4,6 +4,8 @@ import FxVerif.Proofs.Ledger
 import FxVerif.Proofs.C08Index
 import FxVerif.Proofs.C08Books
 import FxVerif.Proofs.C08Run
+import FxVerif.Model.C08Cache
+import FxVerif.Proofs.C08Cache
 import FxVerif.Gen.C04
 import FxVerif.Gen.C08
 /-!
@@ -415,5 +417,79 @@ theorem module_books_preserved_all_messages (s : UState) (hi : IdxInv s.idx) (hd
     (bookM p.denom p.contract (decide (p.denom = 0))).val (runU s ops).L =
       (bookM p.denom p.contract (decide (p.denom = 0))).val s.L :=
   bookM_runU s hi hdead ops hf id p hp hext
+
+/-! ### mixed transactions: the running StateDB's caches and keeper-level nested calls (Model/C08Cache.lean) -/
+
+section Mixed
+open FxVerif.Model.C08Cache FxVerif.Proofs.C08Cache
+
+/-- **a StateDB is a faithful buffer**: starting from caches that agree with the store (in particular from empty
+caches), executing any contract program through `GetState` / `SetState` and committing gives exactly the plain execution
+of the program on the store — same outcome, same final storage.  For every program. -/
+theorem statedb_is_faithful_buffer (p : TProg) (st : Store) :
+    nestedCall p st = ((runPlain p st).1, if (runPlain p st).1 then (runPlain p st).2 else st) :=
+  nestedCall_eq_plain p st
+
+/-- **mixed_tx_coherent**: for EVERY transaction — any sequence of contract programs executed by the running EVM and
+keeper-level nested calls, any payments out of the escrow — IF no nested call reads or writes a slot that the running
+StateDB has cached (origin or dirty) at the moment of the call, THEN the transaction's outcome, final token storage and
+final escrow are exactly those of running the same programs one after the other on one store. -/
+theorem mixed_tx_coherent (steps : List MStep) (st : Store) (esc : Nat)
+    (hc : CoherentTx steps ⟨{ store := st }, esc⟩) : txResult steps st esc = seqResult steps st esc :=
+  txResult_coherent steps st esc hc
+
+/-- conversions made through the running EVM (what `crossChain` does with `contract.NewERC20Call`) are always coherent:
+no hypothesis at all when the transaction contains no keeper-level nested call -/
+theorem mixed_tx_running_evm_only (steps : List MStep) (h : ∀ s ∈ steps, ∃ p pay, s = .evm p pay) (st : Store) (esc : Nat) :
+    txResult steps st esc = seqResult steps st esc :=
+  txResult_coherent steps st esc (coherent_of_evm_only steps _ h)
+
+/-- **mixed_tx_preserves_sum_partial** (I_sum under mixing): a transaction made of FIP20 method calls (`transfer`,
+`approve`, `transferFrom`, `mint`, `burn`, `balanceOf` — by the contract itself, by a precompile through the running EVM
+or by keeper-level nested calls) between counted holders keeps "Σ balances − totalSupply", PROVIDED it is coherent
+(`CoherentTx`: no nested call touches a slot cached by the running StateDB).  The hypothesis is exactly what
+`bridgeCall` violates on the real code; the two theorems below are the witnesses. -/
+theorem mixed_tx_preserves_sum_partial (hs : List Nat) (hn : hs.Nodup) (steps : List MStep)
+    (hm : ∀ s ∈ steps, ∃ m : Method, s.prog = m.prog ∧ ∀ a ∈ m.holders, a ∈ hs) (st : Store) (esc : Nat)
+    (hc : CoherentTx steps ⟨{ store := st }, esc⟩) :
+    tokDiff hs (txResult steps st esc).2.1 = tokDiff hs st := by
+  rw [txResult_coherent steps st esc hc]
+  simp only [seqResult]
+  cases hr : runSeq steps (st, esc) with
+  | none => rfl
+  | some r => exact runSeq_tokDiff hs hn steps hm st esc r.1 r.2 hr
+
+/-- witness 1 (dirty slot): the contract transfers 10 of its 50 tokens, then `bridgeCall` converts 50 through a nested
+call that still sees 50: the transaction succeeds, the contract keeps 40, the other holder has 10, the supply dropped by
+50 — 50 tokens too many (the numbers the harness observes on the real EVM) -/
+theorem mixed_tx_dirty_slot_creates_tokens :
+    let r := txResult [.evm (transfer 0 1 10) 0, .nested (burn 0 50) 50] (store0 50 0 0 100 0) 100
+    r.1 = true ∧ r.2.1 (.bal 0) = 40 ∧ r.2.1 (.bal 1) = 10 ∧ r.2.1 .supply = 50 ∧ r.2.2 = 50 ∧
+    tokDiff [0, 1, 2] r.2.1 = tokDiff [0, 1, 2] (store0 50 0 0 100 0) + 50 := by
+  decide
+
+/-- witness 2 (stale origin cache): the contract only READS its balance before `bridgeCall` converts 20 and transfers 5
+afterwards: the transfer starts from the cached pre-conversion balance and its write-back undoes the burn -/
+theorem mixed_tx_stale_read_creates_tokens :
+    let r := txResult [.evm (balanceOf 0) 0, .nested (burn 0 20) 20, .evm (transfer 0 1 5) 0] (store0 50 0 0 100 0) 100
+    r.1 = true ∧ r.2.1 (.bal 0) = 45 ∧ r.2.1 (.bal 1) = 5 ∧ r.2.1 .supply = 80 ∧
+    tokDiff [0, 1, 2] r.2.1 = tokDiff [0, 1, 2] (store0 50 0 0 100 0) + 20 := by
+  decide
+
+/-- the same conversions through the running EVM (`crossChain`: `transferFrom` then `burn` by the precompile) are
+coherent although the contract dirtied the token first: nothing is created -/
+example :
+    let r := txResult [.evm (transfer 0 1 10) 0, .evm (approve 0 3 40) 0, .evm (transferFrom 3 0 2 40) 0, .evm (burn 2 40) 40]
+      (store0 50 0 0 100 0) 100
+    r.1 = true ∧ r.2.1 (.bal 0) = 0 ∧ r.2.1 (.bal 1) = 10 ∧ r.2.1 .supply = 60 ∧
+    tokDiff [0, 1, 2] r.2.1 = tokDiff [0, 1, 2] (store0 50 0 0 100 0) := by
+  decide
+
+/-- the coherence hypothesis is satisfiable by a transaction that does mix direct calls with a nested conversion: the
+contract reads ANOTHER holder's balance, then `bridgeCall` converts -/
+example : CoherentTx [.evm (balanceOf 1) 0, .nested (burn 0 50) 50] ⟨{ store := store0 50 0 0 100 0 }, 100⟩ := by
+  rw [← coherentTxB_iff]; decide
+
+end Mixed
 
 end FxVerif.Props.C08
